@@ -11,7 +11,10 @@ error pattern into the polymod.  For the data part of a segwit address (at most 
 from `1 xor 0x2bc830a3` (checked for all 1 829 single-error syndromes by kernel evaluation), so the corrupted
 string has neither a valid bech32 nor a valid bech32m checksum and is rejected.  Three and four substitutions
 (the BCH distance proper) are NOT proved here; they are exercised by sampling in the correspondence run and
-exhaustively by the compiled driver in the thorough tier (`s:bch_exhaustive`).
+exhaustively by the compiled driver on every run (`s:bch_exhaustive 59`): no pattern of 1..3 substitutions verifies
+under either checksum variant and none of 4 under the *same* variant; 1 191 four-symbol patterns turn a bech32
+checksum into a bech32m one (and back) — `decode` rejects those unless the version symbol is among the substituted
+ones, and then the address *class* (which fixes the version, hence the variant) rejects them.
 -/
 namespace C11
 open Model.Bech32 Bech32Lemmas BchLemmas
